@@ -525,7 +525,12 @@ func (e *Engine) describeFacts(facts []Fact) []string {
 	return out
 }
 
-func (e *Engine) describeValue(v ssa.Value) string {
+func (e *Engine) describeValue(v ssa.Value) string { return e.describeValueD(v, 0) }
+
+func (e *Engine) describeValueD(v ssa.Value, d int) string {
+	if d > 4 {
+		return v.Name()
+	}
 	switch x := v.(type) {
 	case *ssa.Call:
 		cs := e.Callees(x)
@@ -537,30 +542,33 @@ func (e *Engine) describeValue(v ssa.Value) string {
 		}
 		return x.Call.Value.Name() + "(..)"
 	case *ssa.BinOp:
-		return e.describeValue(x.X) + " " + x.Op.String() + " " + e.describeValue(x.Y)
+		return e.describeValueD(x.X, d+1) + " " + x.Op.String() + " " + e.describeValueD(x.Y, d+1)
 	case *ssa.UnOp:
 		if x.Op == token.MUL {
 			if f, _, ok := fieldOfAddr(x.X); ok {
 				return "." + f.Name()
 			}
 		}
-		return x.Op.String() + e.describeValue(x.X)
+		return x.Op.String() + e.describeValueD(x.X, d+1)
 	case *ssa.Const:
 		return x.String()
 	case *ssa.Parameter:
 		return x.Name()
 	case *ssa.Extract:
-		return e.describeValue(x.Tuple) + "#" + fmt.Sprint(x.Index)
+		return e.describeValueD(x.Tuple, d+1) + "#" + fmt.Sprint(x.Index)
 	case *ssa.Field:
-		return e.describeValue(x.X) + "." + fieldName(x)
+		return e.describeValueD(x.X, d+1) + "." + fieldName(x)
 	case *ssa.Phi:
+		if d > 0 {
+			return "phi:" + x.Name()
+		}
 		var parts []string
 		for _, ed := range x.Edges {
-			parts = append(parts, e.describeValue(ed))
+			parts = append(parts, e.describeValueD(ed, d+1))
 		}
 		return "phi(" + strings.Join(parts, "|") + ")"
 	case *ssa.Convert:
-		return e.describeValue(x.X)
+		return e.describeValueD(x.X, d+1)
 	}
 	return v.Name()
 }
